@@ -182,6 +182,7 @@ func (e *Engine) LoadContracts() error {
 }
 
 var pkgLineRe = regexp.MustCompile(`^package\b`)
+var smtIdentRe = regexp.MustCompile(`[A-Za-z_][A-Za-z0-9_.!$]*`)
 
 func (e *Engine) register(cf *ContractFile) error {
 	e.files = append(e.files, cf)
@@ -546,6 +547,40 @@ func (e *Engine) VerifyFunc(fc *FuncContract) *FuncResult {
 	}
 	// reachability of the exit
 	vc.obls = append(vc.obls, &Obligation{Name: "cover/return", Kind: "cover", Goal: Not(out.pc), TraceLen: len(vc.trace), Pos: res.Pos, ExpectSat: true, Text: "some execution returns normally", Func: fc.Key(), Claimed: true})
+	// vacuity guard for conditional postconditions: the antecedent of every "A ==> B" clause must be
+	// reachable at the (merged) exit, otherwise the clause says nothing about this code
+	{
+		cpost := map[string]Val{}
+		for k, v := range x.params {
+			cpost[k] = v
+		}
+		if len(fc.Results) > 0 {
+			if rv.Tuple != nil {
+				for i, n := range fc.Results {
+					cpost[n] = rv.Tuple[i]
+				}
+			} else {
+				cpost[fc.Results[0]] = rv
+			}
+		}
+		for i, en := range fc.Ensures {
+			be, ok := en.Expr.(*EBinary)
+			if !ok || be.Op != "==>" {
+				continue
+			}
+			cenv := &SpecEnv{x: x, st: out, old: x.entry, vars: cpost, pkg: fn.Pkg.Pkg, inCall: true}
+			a, err := x.evalBool(be.X, cenv)
+			if err != nil {
+				continue
+			}
+			name := fmt.Sprintf("cover/ensures#%d", i)
+			if en.Tag != "" {
+				name = "cover/ensures:" + en.Tag
+			}
+			vc.obls = append(vc.obls, &Obligation{Name: name, Kind: "cover", Goal: Not(And(out.pc, a)), TraceLen: len(vc.trace), Pos: res.Pos, ExpectSat: true,
+				Text: "antecedent reachable: " + en.Text, Func: fc.Key(), Claimed: true})
+		}
+	}
 	exitsList := []retEdge{{out, rv}}
 	if fc.Opts["nomerge"] != "" && len(x.topReturns) > 1 {
 		exitsList = x.topReturns
@@ -721,32 +756,108 @@ func (e *Engine) smtFile(vc *VC, o *Obligation, withModel bool) string {
 		sb.WriteString(d)
 		sb.WriteByte('\n')
 	}
-	// declarations of all contract files first (a definition in one package may use a symbol
-	// declared in another), then definitions, then assertions; file order within each class
+	// User SMT definitions: only those the VC (transitively) refers to are emitted, so that
+	// library axioms of one property never change the solver's behaviour on another.
+	// Order: declarations first (a definition in one package may use a symbol declared in
+	// another), then definitions, then assertions; file order within each class.
+	type cand struct {
+		text  string
+		name  string // declared / defined symbol ("" for assertions)
+		class int
+	}
+	var cands []cand
+	for _, d := range e.smtDefs {
+		if d.Scope == "lemma" && !vc.isLemma {
+			continue
+		}
+		if d.Scope == "func" && vc.isLemma {
+			continue
+		}
+		if d.Mode != "all" && d.Mode != vc.ar.Mode.String() {
+			continue
+		}
+		t := substSorts(d.Text, vc.ar.Mode)
+		if strings.HasPrefix(t, "(declare-ghost") {
+			continue
+		}
+		c := cand{text: t, class: 1}
+		switch {
+		case strings.HasPrefix(t, "(declare-"):
+			c.class = 0
+		case strings.HasPrefix(t, "(assert"):
+			c.class = 2
+		}
+		if c.class != 2 {
+			if f := strings.Fields(t); len(f) >= 2 {
+				c.name = strings.Trim(f[1], "()")
+			}
+		}
+		cands = append(cands, c)
+	}
+	var body strings.Builder
+	for _, d := range vc.decls[nBuiltin:] {
+		body.WriteString(d)
+		body.WriteByte('\n')
+	}
+	for _, t := range vc.trace[:o.TraceLen] {
+		body.WriteString(t)
+		body.WriteByte('\n')
+	}
+	body.WriteString(o.Goal.S)
+	names := map[string]bool{}
+	for _, c := range cands {
+		if c.name != "" {
+			names[c.name] = true
+		}
+	}
+	used := map[string]bool{}
+	mark := func(text string) {
+		for _, id := range smtIdentRe.FindAllString(text, -1) {
+			if names[id] {
+				used[id] = true
+			}
+		}
+	}
+	mark(body.String())
+	include := make([]bool, len(cands))
+	for changed := true; changed; {
+		changed = false
+		for i, c := range cands {
+			if include[i] {
+				continue
+			}
+			take := false
+			if c.name != "" {
+				take = used[c.name]
+			} else {
+				// an assertion (axiom) is relevant when every user symbol it mentions is in use
+				ids := smtIdentRe.FindAllString(c.text, -1)
+				n, all := 0, true
+				for _, id := range ids {
+					if names[id] {
+						n++
+						if !used[id] {
+							all = false
+						}
+					}
+				}
+				take = n > 0 && all
+			}
+			if take {
+				include[i] = true
+				before := len(used)
+				mark(c.text)
+				if len(used) != before {
+					changed = true
+				}
+				changed = true
+			}
+		}
+	}
 	for pass := 0; pass < 3; pass++ {
-		for _, d := range e.smtDefs {
-			if d.Scope == "lemma" && !vc.isLemma {
-				continue
-			}
-			if d.Scope == "func" && vc.isLemma {
-				continue
-			}
-			if d.Mode == "all" || d.Mode == vc.ar.Mode.String() {
-				t := substSorts(d.Text, vc.ar.Mode)
-				if strings.HasPrefix(t, "(declare-ghost") {
-					continue
-				}
-				class := 1
-				switch {
-				case strings.HasPrefix(t, "(declare-"):
-					class = 0
-				case strings.HasPrefix(t, "(assert"):
-					class = 2
-				}
-				if class != pass {
-					continue
-				}
-				sb.WriteString(t)
+		for i, c := range cands {
+			if include[i] && c.class == pass {
+				sb.WriteString(c.text)
 				sb.WriteByte('\n')
 			}
 		}
